@@ -192,6 +192,69 @@ def analyse_cache_functions(lib, cg, eff):
                         for (i, g, how) in C.writes:
                             if i.block.id == s_ or f.dominates(s_, i.block.id):
                                 C.unguarded.append((i, g, how + ' (entered from %s without testing the cache)' % t.loc))
+        # short-circuit guards (`same = f && a == last_a && b == last_b; if (!same) refresh`): a comparison of an argument
+        # with a cache load in an earlier block belongs to the key when its "different" outcome leads to the write region
+        # whatever else happens (following unconditional edges and branches on a phi whose value is a constant on that path)
+        def leads_to_write(pred_block, blk, depth=0):
+            if blk in inev:
+                return True
+            if depth > 8 or blk in err:
+                return False
+            b = f.blocks[blk] if isinstance(f.blocks, list) else [x for x in f.blocks if x.id == blk][0]
+            t = b.term
+            if t.op == 'br' and len(t.ops) == 0:
+                return leads_to_write(blk, t['then'], depth + 1)
+            if t.op == 'br' and len(t.ops) == 1:
+                c = _strip(t.ops[0])
+                if c.get('k') == 'i':
+                    ci = f.instrs[c['v']]
+                    if ci.op == 'phi' and ci.block.id == blk:
+                        for v, pb in ci['incoming']:
+                            if pb == pred_block and v.get('k') == 'c':
+                                nxt = t['then'] if str(v.get('v')) not in ('0', 'false') else t['else']
+                                return leads_to_write(blk, nxt, depth + 1)
+            return False
+
+        if 0 not in inev:
+            for b in f.blocks:
+                if b.id in inev or b.id in err or not b.reachable:
+                    continue
+                t = b.term
+                if not (t.op == 'br' and len(t.ops) == 1):
+                    continue
+                def junct(ref, kind):
+                    """comparisons of an AND-tree (kind 'and': and / select(x, y, false)) or OR-tree (kind 'or')"""
+                    r = _strip(ref)
+                    if r.get('k') != 'i':
+                        return None
+                    i_ = f.instrs[r['v']]
+                    if i_.op in ('icmp', 'fcmp'):
+                        return [(i_, ref)]
+                    parts = None
+                    if i_.op == kind:
+                        parts = [i_.ops[0], i_.ops[1]]
+                    elif i_.op == 'select':
+                        k3 = _strip(i_.ops[2 if kind == 'and' else 1])
+                        want = ('0', 'false') if kind == 'and' else ('1', 'true', '-1')
+                        if k3.get('k') == 'c' and str(k3.get('v')) in want:
+                            parts = [i_.ops[0], i_.ops[1 if kind == 'and' else 2]]
+                    if parts is None:
+                        return None
+                    out_ = []
+                    for p_ in parts:
+                        j_ = junct(p_, kind)
+                        if j_ is None:
+                            return None
+                        out_ += j_
+                    return out_
+
+                for kind, preds, edge in (('and', ('eq', 'oeq', 'ueq'), t['else']), ('or', ('ne', 'one', 'une'), t['then'])):
+                    js = junct(t.ops[0], kind)
+                    if not js:
+                        continue
+                    for ci, ref in js:
+                        if ci['pred'] in preds and loads_from_cache(ref) and leads_to_write(b.id, edge):
+                            C.key_args |= cmp_key_args(ref)
         # slot address key: args flowing into the address of guarded loads
         for t, side, _ in C.guards:
             for ld in loads_from_cache(t.ops[0]):
